@@ -23,7 +23,9 @@ def judge (sc : Scenario) (ctxs : List RoundCtx) : Bool × String :=
       let K := envsOfOps c.ops
       let raced := raced || overlappingNews sc c.ops
       if specC04Round K c.before c.after then go rest raced
-      else if c.after.crashed then (false, if sc.reuse then "reuse_full_claim_crash" else "-")
+      -- a dead core is a plain violation: the model of the code as it is (codeCfg) cannot crash
+      -- (C04_no_crash_code; finding reuse_full_claim_crash is fixed)
+      else if c.after.crashed then (false, "-")
       else if frameOk K c.before c.after && exclusiveTasks c.after && killsUnowned c.before c.after
               && !exclusiveDets c.after && raced then (false, "create_race")
       else (false, "-")
